@@ -512,6 +512,9 @@ func genC05(r *Rng, e *Emitter, n int) {
 				t = &gtree{kind: "gc", layout: geom.NoLayout, members: []*gtree{t}}
 			}
 		}
+		if r.chance(1, 10) && t.zeroSignClosure(r) {
+			e.tally("closed-up-to-zero-sign")
+		}
 		shared := false
 		if t.kind == "gc" && r.chance(1, 3) {
 			t.repeatMembers(r) // the same geometry object in several places of one collection
@@ -520,7 +523,7 @@ func genC05(r *Rng, e *Emitter, n int) {
 		// sometimes every ordinate is a whole number (of any magnitude): then a limit on the decimal
 		// digits written changes no value and the text must be the same
 		whole := r.chance(1, 6)
-		digits := r.Intn(16)
+		digits := r.Intn(17) - 1 // (-1: "as many as needed", the default spelled out)
 		if whole {
 			scale := math.Ldexp(1, []int{0, 0, 10, 60, 200, 700, 990}[r.Intn(7)])
 			t.eachCoord(func(c geom.Coord) {
